@@ -64,6 +64,18 @@ CHECKS = {
    technique="bounded exhaustive enumeration of in-transaction programs on both transactional databases against an overlay model, plus controlled-scheduler exploration (all interleavings up to a preemption bound) of competing increment transactions",
    text="For both transactional databases every program up to the stated depth of in-transaction inserts, removes, take, fetch_update and update_fetch (closures keep/change/delete) on overlapping keys of two keyspaces over a non-empty snapshot, ending in commit, rollback or drop, runs on the real code; after every step every read method inside the transaction equals snapshot+own writes, return values are the documented ones, and outside nothing is visible; after the ending the outside view (and a reopen) shows exactly the final write per key or no change. Competing read-modify-write transactions (explicit and via the keyspace helpers) are run under every schedule up to the preemption bound: no committed increment may be lost and single-writer critical sections never overlap.",
    note="One open transaction in the sequential part; serializability of interleaved optimistic transactions is C07's."),
+ "C07": dict(level="model_checking", engine="E1-histories + E3-schedcheck", design="§3, §5, §6 C07",
+   technique="exhaustive enumeration of bounded transaction histories (2-3 optimistic transactions, every read and write method, every begin/commit order, every interleaving for small shapes, maintenance at every position) on the real database with a brute-force serializability oracle; controlled-scheduler exploration of the commit path",
+   text="Histories of two transactions with every interleaving of all events, of two transactions covering every read method x every write method in every begin/commit order, of three transactions in every begin/commit order, and the same with a maintenance step at every position, are executed on the real OptimisticTxDatabase; for each history every serial order of the committed transactions consistent with real time is tried: one must reproduce every read result and the final state, and refused transactions must have no effect. Write-skew and lost-update bodies run under the controlled scheduler with scheduling points inside the commit oracle for every schedule up to the preemption bound.",
+   note="Keys {a,ab,b}; in the larger families a transaction's steps sit right after its begin (only begin/commit order matters for snapshot reads; validated by the all-interleavings family). A Conflict alone is never a violation. One genuine defect (size_of untracked) was repaired."),
+ "C09": dict(level="fault_enumeration", engine="E2-crashcheck (shim, power-loss images)", design="§4, §6 C09",
+   technique="exhaustive power-loss enumeration: the shim maintains a shadow tree holding each file as of its last fsync/fdatasync and images it before every numbered libc call of every program of a bounded set; each image is recovered by the real code",
+   text="All maximal programs up to the stated depth over inserts, batches and transactions with every durability level, persist in every mode, rotation, worker steps with and without journal rotation and reopen, under automatic and manual journal persist (plus fixed longer programs for the rotation and drop fences), run under the shim; at every later call the power-loss image (all unsynced file data dropped) must open and contain every write acknowledged before the last completed persist(SyncData|SyncAll), Sync-durability commit, journal rotation or database drop; with manual persist the process-crash images are judged with persist(Buffer) as the fence.",
+   note="The adversary drops all unsynced file data and keeps directory operations. The property promises survival, not atomicity of unsynced batches: images that are no exact prefix but contain every synced write are counted, not judged."),
+ "C13": dict(level="fault_enumeration", engine="E2-crashcheck (shim, fault injection)", design="§4, §6 C13",
+   technique="exhaustive fault injection: for every program of a bounded set and every n, the n-th write/fsync/fdatasync on a journal file fails (EIO, ENOSPC, short writes) under the LD_PRELOAD shim; fail-stop and recovery oracle on the real code",
+   text="All maximal programs up to the stated depth over small and large inserts, removes, clear, small and buffer-spilling batches, transaction commits and persist calls, under automatic and manual journal persist, each followed by a probe of every write kind, are run once per journal operation n with that operation failing: the operation in flight must report an error, every later operation of every kind must be refused, and a fault-free reopen must show all previously acknowledged writes and the failed one entirely or not at all.",
+   note="Faults on journal files only; single-threaded driver. One genuine defect (batch/clear did not poison on append errors) was repaired."),
 }
 
 NOT_YET = {
